@@ -1687,4 +1687,166 @@ theorem LedSum_undoConfirmed (e : Env) (s : St) (C P : List Nat) (t : Nat) (h : 
     · have hc' : (e.tx t).coinbase = false := by simpa using hc
       simp only [hc', Bool.false_eq_true, ↓reduceIte] at hsplit ⊢; omega
 
+/-- **`doTx` keeps the ledger invariant.** No freshness hypothesis: only that `e.tx i` has id `i`, that a confirmed
+transaction is not submitted again and that no coinbase is submitted — and only for an admitted transaction. -/
+theorem doTx_Ledger (e : Env) (s : St) (lh : Int) (i : Nat) (C : List Nat) (h : Ledger e s C)
+    (hyp : (doTx e s lh i).2 = .ok → (e.tx i).id = i ∧ i ∉ C ∧ (e.tx i).coinbase = false) :
+    Ledger e (doTx e s lh i).1 C := by
+  by_cases hok : (doTx e s lh i).2 = .ok
+  · obtain ⟨hnp, hadm, hs'⟩ := XV.C03.doTx_ok e s lh i hok
+    obtain ⟨hid, hiC, hcb⟩ := hyp hok
+    have hnot : i ∉ C ++ s.pool := by
+      intro hm
+      rcases List.mem_append.mp hm with hm | hm
+      · exact hiC hm
+      · exact hnp hm
+    have := LedSum_addPending e s lh C s.pool i h hnot hid hcb hadm
+    rw [hs']
+    exact LedSum.congr this rfl rfl
+  · rw [XV.C05.doTx_fail_noop e s lh i hok]; exact h
+
+/-- **the transactions of a block keep the ledger invariant**: the block's transactions join the confirmed log in block
+order; the pending ones among them leave the pool. Hypotheses: ids pairwise distinct, `e.tx i` has id `i`, none already
+confirmed; a new coinbase has no inputs and no fee; the block is valid on the chain alone — it contains the pending
+transactions its transactions cite (`hparents`) and no transaction cites a later one of the block (`hord`). -/
+theorem blockRun_LedSum (e : Env) (lh : Int) (prop : String) (isPool : Nat → Bool) (txs : List Nat) (s s2 : St)
+    (C P : List Nat) (hrun : blockRun e lh prop isPool txs s s2) (h : LedSum e s C P)
+    (hnd : txs.Nodup) (hid : ∀ i ∈ txs, (e.tx i).id = i)
+    (hpool : ∀ i ∈ txs, (isPool i = true ↔ i ∈ P))
+    (hnewC : ∀ i ∈ txs, i ∉ C)
+    (haward : ∀ i ∈ txs, isPool i = false → (e.tx i).coinbase = true →
+      (e.tx i).ins = [] ∧ feeOf (e.tx i).outs = 0)
+    (hparents : ∀ i ∈ txs, ∀ r ∈ (e.tx i).ins, r.tx ∈ P → r.tx ∈ txs)
+    (hord : txs.Pairwise (fun a b => ∀ r ∈ (e.tx a).ins, r.tx ≠ b)) :
+    LedSum e s2 (C ++ txs) (P.filter (fun x => !txs.contains x)) := by
+  induction txs generalizing s C P with
+  | nil =>
+    simp only [blockRun] at hrun
+    subst hrun
+    have : P.filter (fun x => !([] : List Nat).contains x) = P := by
+      apply List.filter_eq_self.mpr; intro a _; simp
+    rw [this, List.append_nil]; exact h
+  | cons i rest ih =>
+    simp only [List.nodup_cons] at hnd
+    simp only [List.pairwise_cons] at hord
+    have hid' : ∀ j ∈ rest, (e.tx j).id = j := fun j hj => hid j (List.mem_cons_of_mem _ hj)
+    have hne : ∀ j ∈ rest, j ≠ i := fun j hj e2 => hnd.1 (e2 ▸ hj)
+    unfold blockRun at hrun
+    by_cases hp : isPool i = true
+    · have hiP : i ∈ P := (hpool i List.mem_cons_self).mp hp
+      have hnp : ∀ r ∈ (e.tx i).ins, r.tx ∉ P := by
+        intro r hr hrP
+        rcases List.mem_cons.mp (hparents i List.mem_cons_self r hr hrP) with h1 | h1
+        · exact h.led.noSelf i (List.mem_append_right _ hiP) r hr h1
+        · exact hord.1 r.tx h1 r hr rfl
+      simp only [hp, ↓reduceIte] at hrun
+      have hstep := LedSum_confirmPending e s prop C P i h hiP hnp
+      have hmemP' : ∀ x, x ∈ P.filter (fun x => x != i) ↔ x ∈ P ∧ x ≠ i := by
+        intro x; simp only [List.mem_filter, bne_iff_ne, ne_eq]
+      have := ih _ (C ++ [i]) (P.filter (fun x => x != i)) hrun hstep hnd.2 hid'
+        (fun j hj => by
+          rw [hmemP', hpool j (List.mem_cons_of_mem _ hj)]
+          exact ⟨fun hh => ⟨hh, hne j hj⟩, fun hh => hh.1⟩)
+        (fun j hj hm => by
+          rcases List.mem_append.mp hm with hm | hm
+          · exact hnewC j (List.mem_cons_of_mem _ hj) hm
+          · simp only [List.mem_cons, List.not_mem_nil, or_false] at hm; exact hne j hj hm)
+        (fun j hj => haward j (List.mem_cons_of_mem _ hj))
+        (fun j hj r hr hrP => by
+          obtain ⟨h1, h2⟩ := (hmemP' r.tx).mp hrP
+          rcases List.mem_cons.mp (hparents j (List.mem_cons_of_mem _ hj) r hr h1) with h3 | h3
+          · exact absurd h3 h2
+          · exact h3)
+        hord.2
+      have hfil : (P.filter (fun x => x != i)).filter (fun x => !rest.contains x) =
+          P.filter (fun x => !(i :: rest).contains x) := by
+        rw [List.filter_filter]
+        apply List.filter_congr
+        intro x _
+        by_cases hx : x = i
+        · simp [hx]
+        · simp [hx]
+      rw [hfil, List.append_assoc] at this
+      exact this
+    · have hp' : isPool i = false := by simpa using hp
+      have hiP : i ∉ P := fun hh => hp ((hpool i List.mem_cons_self).mpr hh)
+      have hnot : i ∉ C ++ P := by
+        intro hm
+        rcases List.mem_append.mp hm with hm | hm
+        · exact hnewC i List.mem_cons_self hm
+        · exact hiP hm
+      have hnp : ∀ r ∈ (e.tx i).ins, r.tx ∉ P := by
+        intro r hr hrP
+        rcases List.mem_cons.mp (hparents i List.mem_cons_self r hr hrP) with h1 | h1
+        · exact hiP (h1 ▸ hrP)
+        · exact hord.1 r.tx h1 r hr rfl
+      simp only [hp, Bool.false_eq_true, ↓reduceIte] at hrun
+      have hstep := LedSum_confirmNew e s lh prop C P i h hnot (hid i List.mem_cons_self) hrun.1
+        (haward i List.mem_cons_self hp') hnp
+      have := ih _ (C ++ [i]) P hrun.2 hstep hnd.2 hid'
+        (fun j hj => hpool j (List.mem_cons_of_mem _ hj))
+        (fun j hj hm => by
+          rcases List.mem_append.mp hm with hm | hm
+          · exact hnewC j (List.mem_cons_of_mem _ hj) hm
+          · simp only [List.mem_cons, List.not_mem_nil, or_false] at hm; exact hne j hj hm)
+        (fun j hj => haward j (List.mem_cons_of_mem _ hj))
+        (fun j hj r hr hrP => by
+          rcases List.mem_cons.mp (hparents j (List.mem_cons_of_mem _ hj) r hr hrP) with h3 | h3
+          · exact absurd (h3 ▸ hrP) hiP
+          · exact h3)
+        hord.2
+      have hfil : P.filter (fun x => !rest.contains x) = P.filter (fun x => !(i :: rest).contains x) := by
+        apply List.filter_congr
+        intro x hx
+        have : x ≠ i := fun e2 => hiP (e2 ▸ hx)
+        simp [this]
+      rw [hfil, List.append_assoc] at this
+      exact this
+
+/-- **eviction / roll-back under the ledger invariant** (see `undoFold_LiveSum`): pending transactions are undone in an
+order in which each is undone after every pending transaction that cites it; confirmed ones never cite pending ones -/
+theorem undoFold_LedSum (e : Env) (ev : List Nat) (s : St) (C P : List Nat) (h : LedSum e s C P)
+    (hnd : ev.Nodup) (hsub : ∀ t ∈ ev, t ∈ P)
+    (hord : ev.Pairwise (fun a b => ∀ r ∈ (e.tx b).ins, r.tx ≠ a))
+    (hclosed : ∀ t ∈ ev, ∀ j ∈ P, (∃ r ∈ (e.tx j).ins, r.tx = t) → j ∈ ev) :
+    LedSum e (ev.foldl (fun st i => undoTx e st (e.tx i)) s) C (P.filter (fun x => !ev.contains x)) := by
+  induction ev generalizing s P with
+  | nil =>
+    have : P.filter (fun x => !([] : List Nat).contains x) = P := by
+      apply List.filter_eq_self.mpr; intro a _; simp
+    rw [this]; exact h
+  | cons t rest ih =>
+    simp only [List.nodup_cons] at hnd
+    simp only [List.pairwise_cons] at hord
+    have htP := hsub t List.mem_cons_self
+    have hnc : ∀ j ∈ C ++ P, ∀ r ∈ (e.tx j).ins, r.tx ≠ t := by
+      intro j hj r hr hrt
+      rcases List.mem_append.mp hj with hjC | hjP
+      · exact (List.pairwise_append.mp h.led.order).2.2 j hjC t htP r hr hrt
+      · rcases List.mem_cons.mp (hclosed t List.mem_cons_self j hjP ⟨r, hr, hrt⟩) with hjt | hjr
+        · exact h.led.noSelf j hj r hr (hrt.trans hjt.symm)
+        · exact hord.1 j hjr r hr hrt
+    have hstep := LedSum_undoPending e s C P t h htP hnc
+    have hmem : ∀ x, x ∈ P.filter (fun x => x != t) ↔ x ∈ P ∧ x ≠ t := by
+      intro x; simp only [List.mem_filter, bne_iff_ne, ne_eq]
+    have := ih (undoTx e s (e.tx t)) (P.filter (fun x => x != t)) hstep hnd.2
+      (fun t' ht' => (hmem t').mpr ⟨hsub t' (List.mem_cons_of_mem _ ht'), fun e2 => hnd.1 (e2 ▸ ht')⟩)
+      hord.2
+      (fun t' ht' j hj hc => by
+        obtain ⟨hjP, hjt⟩ := (hmem j).mp hj
+        rcases List.mem_cons.mp (hclosed t' (List.mem_cons_of_mem _ ht') j hjP hc) with h1 | h1
+        · exact absurd h1 hjt
+        · exact h1)
+    simp only [List.foldl_cons]
+    have hfil : (P.filter (fun x => x != t)).filter (fun x => !rest.contains x) =
+        P.filter (fun x => !(t :: rest).contains x) := by
+      rw [List.filter_filter]
+      apply List.filter_congr
+      intro x _
+      by_cases hx : x = t
+      · simp [hx]
+      · simp [hx]
+    rw [hfil] at this
+    exact this
+
 end XV.C02
